@@ -107,7 +107,10 @@ func (la *lockAnalysis) analyze(fn *ssa.Function, entry int) *lockResult {
 	}
 	r := &lockResult{errs: map[string]lockErr{}}
 	la.memo[key] = r
+	// the typestate handles Defer / RunDefers itself
+	modelDefersOn = false
 	g := newIG(la.m, fn, nil)
+	modelDefersOn = true
 	r.g = g
 	addErr := func(n int, kind, text string) {
 		k := fmt.Sprintf("%d/%s", n, kind)
